@@ -76,6 +76,13 @@ def seeded_mutants():
             continue
         meta = json.load(open(mp))
         ev = meta.get("evaluation", {})
+        if d.startswith("refactor-"):
+            # behaviour-preserving rewrites written by sub-agents: every check must stay silent on them
+            for i in range(1, 21):
+                prop = f"C{i:02d}"
+                exp = "inconclusive" if ev.get("alarms", {}).get(prop, {}).get("exit") == 2 else "silent"
+                out.append({"id": f"{d}-{prop}", "props": [prop], "patch": pp, "rules": None, "expect": exp})
+            continue
         props = [p for p, r in ev.get("checks_run", {}).items() if r.get("exit") == 1]
         if not props:
             continue
